@@ -305,23 +305,20 @@ Qed.
 
 (* ---- termination --------------------------------------------------------------------------- *)
 
-Lemma too_many_false r m : too_many_redirects r m = false -> m <> 0%Z -> (r < m)%Z.
-Proof.
-  unfold too_many_redirects. intros H Hm.
-  destruct (m =? 0)%Z eqn:E0; [lia|]. cbn [negb andb] in H. lia.
-Qed.
+Lemma too_many_false r m : too_many_redirects r m = false -> (r < m)%Z.
+Proof. unfold too_many_redirects. intros H. lia. Qed.
 
-Lemma bounded_from c : c_max c <> 0%Z -> forall resps st,
+Lemma bounded_from c : forall resps st,
   (Z.of_nat (length (sents (run_from c st resps))) <= Z.max 1 (c_max c - r_redirects st))%Z.
 Proof.
-  intros Hm. induction resps as [|r0 rest0 IH]; intros st.
+  induction resps as [|r0 rest0 IH]; intros st.
   - destruct (run_cases c st []) as [Hc Hr|Hc He Hr|r rest o d Hc He|r rest st2 d Hc He]; try discriminate;
       rewrite Hr; cbn [sents length]; lia.
   - destruct (run_cases c st (r0 :: rest0)) as [Hc Hr|Hc He Hr|r rest o d Hc He Ha Hr|r rest st2 d Hc He Ha Hr];
       try discriminate; rewrite Hr; cbn [sents length]; try lia.
     inversion He; subst r rest.
     apply after_Next in Ha as (_ & _ & Ht & _ & target & _ & ->).
-    apply too_many_false in Ht; auto.
+    apply too_many_false in Ht.
     specialize (IH (next_state (stripped st) (sent_of st) r0 target)).
     cbn [next_state r_redirects stripped] in IH, Ht. lia.
 Qed.
@@ -548,16 +545,16 @@ Proof.
 Qed.
 
 Lemma terminates c q resps :
-  c_max c <> 0%Z -> (Z.of_nat (length (sents (run c q resps))) <= Z.max 1 (c_max c))%Z.
+  (Z.of_nat (length (sents (run c q resps))) <= Z.max 1 (c_max c))%Z.
 Proof.
-  intro Hm. pose proof (bounded_from c Hm resps (init q)) as H. cbn [init r_redirects] in H.
+  pose proof (bounded_from c resps (init q)) as H. cbn [init r_redirects] in H.
   unfold run. lia.
 Qed.
 
 Lemma terminates_outcome c q resps :
-  c_max c <> 0%Z -> (Z.max 1 (c_max c) <= Z.of_nat (length resps))%Z -> result (run c q resps) <> Pending.
+  (Z.max 1 (c_max c) <= Z.of_nat (length resps))%Z -> result (run c q resps) <> Pending.
 Proof.
-  intros Hm Hl Hp. pose proof (terminates c q resps Hm) as H.
+  intros Hl Hp. pose proof (terminates c q resps) as H.
   unfold run in *. rewrite (pending_len c resps (init q) Hp) in H. lia.
 Qed.
 
